@@ -296,6 +296,8 @@ func witnessCases(prop string) []Case {
 	case "C02":
 		return []Case{
 			mk("codec-suffix-name", Cfg{Comp: "gzip", Level: "fastest", RS: 20, WC: "file"}, []Op{{K: "create", A: "/x.gz", Len: 5, Dist: "text", DSeed: 1}}),
+			mk("rename-while-open", Cfg{Level: "fastest", RS: 20, WC: "file"}, []Op{{K: "hcreate", A: "/f"}, {K: "hwrite", Len: 9, Dist: "text", DSeed: 4}, {K: "rename", A: "/f", B: "/g"}, {K: "hclose"}}),
+			mk("remove-while-open", Cfg{Level: "fastest", RS: 20, WC: "file"}, []Op{{K: "hcreate", A: "/f"}, {K: "hwrite", Len: 9, Dist: "text", DSeed: 4}, {K: "remove", A: "/f"}, {K: "hclose"}}),
 		}
 	}
 	return nil
